@@ -72,7 +72,6 @@ Print Assumptions C08_union_member.
 (* __typename reports the type the selection set is evaluated against (the concrete type) *)
 Theorem C08_typename :
   forall S G frags any md vars fuel obj id alias args fsels t result depth s,
-    lookup id (s_args s) = None ->
     resolve_field S G frags any md vars (Datatypes.S fuel) obj id alias TYPENAME args fsels t result depth s =
     match snd (sort_args S t TYPENAME args) with
     | [] => Done (set_key (key_of alias TYPENAME) (RTypeName t) result, [],
@@ -80,7 +79,7 @@ Theorem C08_typename :
     | e :: r => Done (result, errs_in (PKey (key_of alias TYPENAME)) (e :: r), mkSt ((id, t) :: s_args s) (s_calls s))
     end.
 Proof.
-  intros. rewrite resolve_field_eq. cbv zeta. rewrite H.
+  intros. rewrite resolve_field_eq. cbv zeta.
   destruct (sort_args S t TYPENAME args) as [a [|e r]]; reflexivity.
 Qed.
 Print Assumptions C08_typename.
